@@ -38,7 +38,7 @@ CHECKS = {
  "C14": ("model-based stateful property testing (proptest) with cost instrumentation; oracle: trace counter (hook H2) and arena allocation counters around every clone/drop of a handle to an object without recorded adoptions",
          "Every clone, and every drop of a handle to an object with no recorded adoption, runs zero traces and zero allocations (zero frees if the object stays alive).", "4 C14"),
  "C15": ("property testing over generated size/shape parameters (proptest), final drop on a 128 KiB stack in a forked child; oracle: completion, destructor count, hook counters bounded linearly",
-         "Orphaned groups up to 20k (quick) / 300k (thorough) objects are reclaimed on a 128 KiB stack with <= 2N+2 table scans and <= 2(N+E)+2 worklist pops over all traces of the final drop.", "4 C15"),
+         "Orphaned groups up to 20k (quick) / 300k (thorough) objects are reclaimed on a 128 KiB stack with <= 8N+8 table scans and <= 8(N+E)+8 worklist pops (plus instruction-count growth probes) over all traces of the final drop.", "4 C15"),
  "C16": ("model-based stateful property testing (proptest) with process-level oracle: fork per case, exit status of the child",
          "Cloning a stored handle to a destroyed (or condemned) peer from a destructor terminates the child by SIGILL/SIGABRT/SIGTRAP before the clone returns; clones of live peers succeed; drops of dead handles are inert.", "4 C16"),
 }
